@@ -145,7 +145,10 @@ class Synth:
             elif var == 2:
                 # incl. a name the host file system cannot store (NUL byte); a name field that is not UTF-8 is outside
                 # what the spacepackets Metadata model (str names) calls well-formed and is not generated (DESIGN 12.2)
-                dst = ["dst/other.bin", "dst", "dst/sub/x.bin", "nodir/x.bin", "dst/nul\x00b.bin"][t.choose(5, "md dst")]
+                dst = ["dst/other.bin", "dst", "dst/sub/x.bin", "nodir/x.bin", "dst/nul\x00b.bin", ("x/sub", "dst")][t.choose(6, "md dst")]
+                if isinstance(dst, tuple):
+                    # destination given as a directory in which the source's base name is itself an existing directory
+                    src, dst = dst
                 notes.append("dstname")
             elif var == 3:
                 src, dst = None, None
